@@ -99,6 +99,7 @@ type peMon struct {
 	delFaulted map[string]bool // interfaces whose delete call failed by injection
 	inGC       bool
 	inDeposed  bool // a deposed leader's reconcile is running
+	lastSeen   map[string]time.Time // name -> when the harness last knew the pod to exist (moves back with elapse)
 	edges      map[string]int
 	guarded    int
 }
@@ -240,6 +241,12 @@ func peENIs(p *v1beta1.PodENI) []string {
 // peKeep: independent evaluation of "must this record be kept" (property C11), with a 60 s margin
 // around every TTL; returns keep, undecided (inside the margin).
 func peKeep(rec *v1beta1.PodENI, now time.Time) (keep, undecided bool, why string) {
+	return peKeepSince(rec, now, rec.Status.PodLastSeen.Time)
+}
+
+// peKeepSince: lastSeen is when the pod was last observed (the record's own stamp, or the harness's knowledge of
+// when the pod last existed if that is later: the stamp is the controller's to keep fresh).
+func peKeepSince(rec *v1beta1.PodENI, now time.Time, lastSeen time.Time) (keep, undecided bool, why string) {
 	for _, a := range rec.Spec.Allocations {
 		if a.AllocationType.Type != v1beta1.IPAllocTypeFixed {
 			continue
@@ -252,7 +259,7 @@ func peKeep(rec *v1beta1.PodENI, now time.Time) (keep, undecided bool, why strin
 			if err != nil || d < 0 {
 				return true, false, "an allocation has an unusable TTL " + a.AllocationType.ReleaseAfter
 			}
-			age := now.Sub(rec.Status.PodLastSeen.Time)
+			age := now.Sub(lastSeen)
 			switch {
 			case age < d-time.Minute:
 				return true, false, fmt.Sprintf("TTL %s has not elapsed since the pod was last seen (%s ago)", d, age.Round(time.Second))
@@ -272,7 +279,11 @@ func (m *peMon) judgeFixedRelease(name string, rec *v1beta1.PodENI, verb string)
 		m.violate("C11", "C11.fixed-record-released", "pod-running", fmt.Sprintf("record %s with a fixed allocation was moved to deleting (%s) while its pod %s is running", name, verb, p.UID))
 		return
 	}
-	keep, undecided, why := peKeep(rec, time.Now())
+	seen := rec.Status.PodLastSeen.Time
+	if t, ok := m.lastSeen[name]; ok && t.After(seen) && !seen.IsZero() {
+		seen = t
+	}
+	keep, undecided, why := peKeepSince(rec, time.Now(), seen)
 	if undecided {
 		m.r.Count("fixed_releases_inside_ttl_margin_not_judged", 1)
 		return
@@ -494,6 +505,7 @@ type peHist struct {
 	uidGen     int
 	apiMu      sync.Mutex
 	apiFlt     int
+	listFlt    int // remaining injected failures of a PodENI list
 	burstMu    sync.Mutex
 	scripted   func()       // one-shot: runs instead of a random burst at the next matching controller API call
 	scriptedAt string       // "get" (a pod read) | "write" (a record write)
@@ -602,6 +614,19 @@ func newPeHist(c *ctxT, prop string, hid int, cfg peCfg, seed int64) *peHist {
 		hk.BeforeGet = func(ctx context.Context, key client.ObjectKey, obj client.Object) error {
 			if _, ok := obj.(*corev1.Pod); ok {
 				h.maybeBurst("get")
+			}
+			return nil
+		}
+		hk.BeforeList = func(ctx context.Context, list client.ObjectList) error {
+			if _, ok := list.(*v1beta1.PodENIList); !ok {
+				return nil
+			}
+			h.apiMu.Lock()
+			defer h.apiMu.Unlock()
+			if h.listFlt > 0 {
+				h.listFlt--
+				h.mon.note("api: injected failure of a record list")
+				return apierrors.NewServiceUnavailable("injected: list failed")
 			}
 			return nil
 		}
@@ -817,6 +842,10 @@ func (h *peHist) remove(p *pePod) {
 	if obj := h.getPod(p.Name); obj != nil {
 		h.mon.mu.Lock()
 		p.Exists, p.Exited = false, true // a force-deleted pod: its sandbox is killed with it
+		if m := h.mon; m.lastSeen == nil {
+			m.lastSeen = map[string]time.Time{}
+		}
+		h.mon.lastSeen[p.Name] = time.Now()
 		h.mon.clock++
 		h.mon.ev("pod %s uid=%s object removed", p.Name, p.UID)
 		h.mon.mu.Unlock()
@@ -919,6 +948,17 @@ func (h *peHist) gcRecords() {
 	h.safe("gc", func() { h.ectl.VerifGCCRPodENIs(context.Background()) })
 }
 func (h *peHist) gcInterfaces() {
+	if h.walking && h.cfg.APIFaults && h.rng.Intn(3) == 0 {
+		// the collector's own list of the records fails: it must not conclude that nothing is referenced
+		h.apiMu.Lock()
+		h.listFlt = 1
+		h.apiMu.Unlock()
+		defer func() {
+			h.apiMu.Lock()
+			h.listFlt = 0
+			h.apiMu.Unlock()
+		}()
+	}
 	h.mon.mu.Lock()
 	h.mon.inGC = true
 	h.mon.clock++
@@ -931,6 +971,32 @@ func (h *peHist) gcInterfaces() {
 	h.mon.mu.Lock()
 	h.mon.inGC = false
 	h.mon.mu.Unlock()
+}
+
+// elapse: d passes for the records of pods that are gone: their last-seen stamps (the record's and the harness's own)
+// move d into the past. Records of pods that exist are kept fresh by the collector and are left alone.
+func (h *peHist) elapse(d time.Duration) {
+	h.mon.mu.Lock()
+	var names []string
+	for n, p := range h.mon.cur {
+		if !p.live() {
+			names = append(names, n)
+			if t, ok := h.mon.lastSeen[n]; ok {
+				h.mon.lastSeen[n] = t.Add(-d)
+			}
+		}
+	}
+	h.mon.clock++
+	h.mon.ev("%s pass for the records of absent pods %v", d, names)
+	h.mon.mu.Unlock()
+	for _, n := range names {
+		rec := &v1beta1.PodENI{}
+		if err := h.cl.Get(context.Background(), client.ObjectKey{Namespace: "ns", Name: n}, rec); err != nil || rec.Status.PodLastSeen.IsZero() {
+			continue
+		}
+		rec.Status.PodLastSeen = metav1.NewTime(rec.Status.PodLastSeen.Add(-d))
+		_ = h.cl.Status().Update(context.Background(), rec)
+	}
 }
 
 // age: cloud time passes for the interfaces that exist now (creation time moves 11 minutes back).
